@@ -396,6 +396,71 @@ func runC03(w *vx.W) {
 			}
 		}
 	}
+	// a further file_id that leaves the type out (or sets it to the invalid value), between hosted messages:
+	// either the stream is rejected or the File stays consistent (its type still selects the container that
+	// received the messages)
+	k = 0
+	for _, t1 := range fileTypes {
+		ft := byte(t1.Type)
+		slots := hosts()[ft]
+		if len(slots) == 0 {
+			continue
+		}
+		var sym c03Sym
+		for _, a := range alpha {
+			if a.Mesg == slots[len(slots)-1].Mesg {
+				sym = a
+			}
+		}
+		for variant := 0; variant < 3; variant++ {
+			for pos := 0; pos < 2; pos++ {
+				k++
+				if !w.Mine(k) {
+					continue
+				}
+				var second []byte
+				switch variant {
+				case 0: // serial number only, no type field
+					d := fitmodel.Def{Local: 9, Global: 0, Fields: []fitmodel.FieldDef{{Num: 3, Size: 4, Base: fitmodel.Uint32z}}}
+					second = fitmodel.Concat(d.Bytes(), fitmodel.Data(9, []byte{1, 2, 3, 4}))
+				case 1: // explicit invalid type
+					second = fitmodel.Concat(fitmodel.FileIdDef(9, false).Bytes(), fitmodel.Data(9, []byte{0xFF}))
+				case 2: // zero-field file_id record
+					d := fitmodel.Def{Local: 9, Global: 0}
+					second = fitmodel.Concat(d.Bytes(), fitmodel.Data(9, nil))
+				}
+				rec1, _ := c03Record(sym, 0, ft)
+				rec2, _ := c03Record(sym, 1, ft)
+				parts := fitmodel.FileIdRecords(0, ft)
+				if pos == 0 {
+					parts = append(parts, second, rec1, rec2)
+				} else {
+					parts = append(parts, rec1, second, rec2)
+				}
+				s := fitmodel.File(fitmodel.DefaultHeader, parts...)
+				res := safeDecode(bytes.NewReader(s))
+				w.Eval(1)
+				w.Trace(1)
+				w.Fam("file_id-without-type", 1)
+				rep := c03Replay{ft, []string{fmt.Sprintf("file_id variant %d at position %d", variant, pos), sym.Name}, vx.Hex(s)}
+				if res.Panic != "" {
+					w.Violation("file_id-without-type", "panic: "+res.Panic, rep)
+					continue
+				}
+				if res.Err != nil {
+					continue
+				}
+				cont := container(res.File)
+				if res.File.Type() != t1.Type || !cont.IsValid() {
+					w.Violation("file_id-without-type", fmt.Sprintf("%s file with a further file_id (variant %d) is accepted but File.Type()=%v and the matching accessor yields no container", t1.Name, variant, res.File.Type()), rep)
+					continue
+				}
+				if got := len(messagesOf(res.File, sym.Mesg)); (slotIsSlice(ft, sym.Mesg) && got != 2) || got == 0 {
+					w.Violation("file_id-without-type", fmt.Sprintf("%s file with a further file_id (variant %d): %d %s messages in the container, 2 in the stream", t1.Name, variant, got, sym.Name), rep)
+				}
+			}
+		}
+	}
 	for h := range states {
 		w.State(h)
 	}
